@@ -270,7 +270,7 @@ CLAIMED = {
     note="Trusted as for C01. The termination theorem is about the model (a fuelled transcription of the while loops; fuel is not a bound in the "
          "real code): it transfers to solver.py through the trace correspondence, which is sampled. Wall-clock and recursion depth are runtime. "
          "The theorems of SolverWaits.v / SolverCount.v / SolverTerm.v assume NoDup of the requested forms and no individually requested lines; "
-         "the retry limit of the model (64 nested specification loads in one attempt) exceeds the number of forms of every shipped year.",
+         "the retry limit of the model (64 nested specification loads inside ONE attempt; every numbered copy of a form counts as a form) exceeds the number of forms of every shipped year (23-24) with room for some forty copies - the real code has no such limit, only Python's recursion depth.",
     technique='Rocq refinement proof of the tracker (Permutation accounting) + invariant on the prompt transcript; correspondence; budgeted monitor',
  ),
  'C13': dict(
